@@ -246,7 +246,7 @@ def record_restructure(
     def probe() -> None:
         # a client asks the graph's generator for one block name of EVERY kind (the kinds of the front ends' own blocks included),
         # a region name and a variable name: none may be a name that is present (the requests are name events like any other)
-        for k in probe_kinds:
+        for k in probe_kinds + ["ir"]:             # "ir": a kind of the client's own choosing
             scfg.name_gen.new_block_name(k)
         scfg.name_gen.new_region_name("loop")
         scfg.name_gen.new_var_name("control")
